@@ -10,6 +10,10 @@
   AND = all, OR = any, implicit operation = the configured default operation, `NOT` and `-` =
   negation, every other construct = the value of its operand.
   Quantified over all trees (satisfying `good`) × all truth assignments × both default operations.
+  `propagate_correct_reported` is the same conclusion for the reports a search engine really gives:
+  the names of parenthesised operations are reported too when their clause matched (`propagate_correct`
+  is the case where none is; the examples `bad3`, `bad4` show that "truthfully" and "no negation
+  strictly between the element and its operation" are needed).
 
   Hypotheses on the tree (`good false t`, all of them necessary, see `good` and the `example`s at
   the end of the file):
@@ -33,7 +37,7 @@ namespace Luqum.Props.C16
 open Luqum Luqum.Lemmas.NamedPaths
 
 export Luqum.Lemmas.Propagate (isOrNode isNeg isAtomic isTermLike evalT evalTs cover negFree opFree
-  good goods visible coverVal)
+  good goods visible coverVal coverOp negFreeOp negFreeBelow preVal coverOpVal)
 
 /-! ### Part A — the generated class tuples -/
 
@@ -152,7 +156,55 @@ theorem propagate_correct (defaultOr : Bool) (τ : List Nat → Bool) (t : Tree)
         (p ∈ r.2.1 ↔ evalT defaultOr τ p n = true) ∧ (p ∈ r.2.2 ↔ evalT defaultOr τ p n = false)) ∧
     (∀ p, p ∈ r.2.1 ++ r.2.2 → visible t p = true ∧ ∃ n, t.at? p = some n) ∧
     (r.2.1 ++ r.2.2).Pairwise (· ≠ ·) :=
-  Lemmas.Propagate.propagate_spec (propCfg_spec defaultOr) τ t hg matching other ⟨hm, ho⟩
+  Lemmas.Propagate.propagate_spec (propCfg_spec defaultOr) τ t hg matching other
+    (Lemmas.Propagate.Ctx.of_iff hm ho)
+
+/-- **C16, with the names of operations reported too.** A named element which covers an operation
+(a parenthesised operand `(a OR b)`, `f:(a b)`, `-(a b)` …) has no term of its own; Elasticsearch
+reports its name when the clause built for the operation matched, and `matching_from_names` then
+lists its path among the matching ones. The conclusion of `propagate_correct` holds for every such
+report that is truthful: the named elements which cover a term are in `matching` / `other` according
+to the truth of the term (as before); a named element which covers an operation may be in `other` or
+in neither list, and may be in `matching` only if that operation is true and no negation lies
+strictly between the element and the operation. `propagate_correct` is the case where none is
+reported. -/
+theorem propagate_correct_reported (defaultOr : Bool) (τ : List Nat → Bool) (t : Tree)
+    (hg : good false t = true) (matching other : List (List Nat))
+    (hsm : ∀ p, p ∈ matching → p ∈ named t) (hso : ∀ p, p ∈ other → p ∈ named t)
+    (hterm : ∀ p c, p ∈ named t → (t.at? p).bind cover = some c →
+      (p ∈ matching ↔ τ (p ++ c) = true) ∧ (p ∈ other ↔ τ (p ++ c) = false))
+    (hop : ∀ p, p ∈ matching → (t.at? p).bind cover = none →
+      (∀ n, t.at? p = some n → negFreeBelow n = true) ∧ coverOpVal defaultOr τ t p = true) :
+    let r := propagate (propCfg defaultOr) matching other [] t
+    r.1 = evalT defaultOr τ [] t ∧
+    (∀ p n, t.at? p = some n → visible t p = true →
+        (p ∈ r.2.1 ↔ evalT defaultOr τ p n = true) ∧ (p ∈ r.2.2 ↔ evalT defaultOr τ p n = false)) ∧
+    (∀ p, p ∈ r.2.1 ++ r.2.2 → visible t p = true ∧ ∃ n, t.at? p = some n) ∧
+    (r.2.1 ++ r.2.2).Pairwise (· ≠ ·) := by
+  refine Lemmas.Propagate.propagate_spec (propCfg_spec defaultOr) τ t hg matching other
+    ⟨hsm, hso, ?_, ?_, ?_⟩
+  · intro p n c hn hat hc
+    exact (hterm p c hn (by simp [hat, hc])).1
+  · intro p n c hn hat hc
+    exact (hterm p c hn (by simp [hat, hc])).2
+  · intro p n hp hat hc
+    obtain ⟨h1, h2⟩ := hop p hp (by simp [hat, hc])
+    have hnf := h1 n hat
+    simp only [coverOpVal, hat, Option.bind_some] at h2
+    cases hco : coverOp n with
+    | none => simp [hco] at h2
+    | some c =>
+      simp only [hco] at h2
+      cases hat2 : t.at? (p ++ c) with
+      | none => simp [hat2] at h2
+      | some o =>
+        simp only [hat2] at h2
+        have hoc : n.at? c = some o := by
+          have := at?_append t p c
+          rw [hat2, hat] at this
+          simpa using this.symm
+        rw [Lemmas.Propagate.preVal_coverOp defaultOr τ n p c o hnf hco hoc]
+        exact h2
 
 /-! ### non-vacuity and necessity of the hypotheses -/
 
@@ -181,6 +233,39 @@ example : good false q2 = true := by decide
 example : named q2 = [[]] := by decide
 example : propagate (propCfg true) [[]] [] [] q2 = (false, [[0, 0, 0], [0, 0], [0]], [[]]) := by
   decide
+
+/-- `first AND (title:foo OR bar)`: the group is a named element which covers the operation; `first`
+and `bar` match, `foo` does not. The group is reported (`[1]` is in `matching`) or not: the same,
+right, classification (`title:foo` and `foo` are not matching) -/
+private def q3 : Tree :=
+  .op .and [w "first", .group .group (.op .or [.field "title".toList (w "foo") {}, w "bar"] {}) {}] {}
+
+example : good false q3 = true := by decide
+example : named q3 = [[0], [1], [1, 0, 0], [1, 0, 1]] := by decide
+example : (q3.at? [1]).bind cover = none ∧ (q3.at? [1]).bind coverOp = some [0] := by decide
+example : coverOpVal false (fun p => p == [0] || p == [1, 0, 1]) q3 [1] = true := by decide
+example : propagate (propCfg false) [[0], [1], [1, 0, 1]] [[1, 0, 0]] [] q3 =
+    (true, [[0], [1, 0, 1], [1, 0], [1], []], [[1, 0, 0, 0], [1, 0, 0]]) := by decide
+example : propagate (propCfg false) [[0], [1, 0, 1]] [[1], [1, 0, 0]] [] q3 =
+    (true, [[0], [1, 0, 1], [1, 0], [1], []], [[1, 0, 0, 0], [1, 0, 0]]) := by decide
+
+/-- necessity of "truthful" for a reported operation: `(a AND b) OR c` with only `a` true; were the
+group reported, it and the query would be classified matching -/
+private def bad3 : Tree := .op .or [.group .group (.op .and [w "a", w "b"] {}) {}, w "c"] {}
+
+example : coverOpVal true (fun p => p == [0, 0, 0]) bad3 [0] = false := by decide
+example : (propagate (propCfg true) [[0], [0, 0, 0]] [[0, 0, 1], [1]] [] bad3).1 = true ∧
+    evalT true (fun p => p == [0, 0, 0]) [] bad3 = false := by decide
+
+/-- necessity of "no negation strictly between the element and the operation": `(NOT (a b)) OR c`
+with `a`, `b` true, the group reported because its operation is true -/
+private def bad4 : Tree :=
+  .op .or [.group .group (.unary .not (.group .group (.op .and [w "a", w "b"] {}) {}) {}) {}, w "c"] {}
+
+example : negFreeBelow (.group .group (.unary .not (.group .group (.op .and [w "a", w "b"] {}) {}) {}) {}) = false := by
+  decide
+example : (propagate (propCfg true) [[0], [0, 0, 0, 0, 0], [0, 0, 0, 0, 1]] [[1]] [] bad4).1 = true ∧
+    evalT true (fun p => p == [0, 0, 0, 0, 0] || p == [0, 0, 0, 0, 1]) [] bad4 = false := by decide
 
 /-- necessity of "no negation strictly below a named element": `(NOT a) OR b`; when `a` matches,
 the group (named, covering `a`) is reported ok although its value is false -/
